@@ -14,6 +14,13 @@
   `with glock: refcount -= 1; if not refcount: del` → `flockShapeRecognised`, `flockDelAtZero`.
 * `restore._download_chunk`: all writer futures are awaited before the finalisation loop → `loaderJoinsWritersFirst`; the digest is
   removed and the metadata popped under `glock` → `removeUnderGlock`, `popUnderGlock`.
+* waits with a finite time-out (`….result(t)`, `….wait(t)`, `wait_for(…, t)`, `asyncio.timeout(t)`, `…(…, timeout=t)` with `t` not
+  `None`) anywhere in repository.py.  A wait that is *retried* — it sits in a `while` loop whose handler for the time-out exception
+  neither raises, returns nor breaks (the producer's `put`), or it is the loop's test — is an unbounded wait with a periodic
+  wake-up.  A wait that is not retried makes the outcome depend on how long something took: in the two slot context managers →
+  `slotWaitBounded` (+ `slotWaitTimeoutMs`, 0 when the value is not a literal / module constant), elsewhere →
+  `unmodelledTimedWaits` (the model has no transition for them; `timed_waits_covered` demands the list to be empty).
+  The slot shape itself (`slotReleaseInFinally`) tolerates statements between the request and the `try: yield slot`.
 Anything else than the recognised shapes yields `false` (or an `opaque`); the theorems of Properties/C09.lean that discharge the flag
 by `decide` then stop compiling.
 """
@@ -38,15 +45,124 @@ def _bool_expr(ctx, node):
 
 
 def _slot_cm(ctx, fn, put_pred):
-    """slot = <…get…>; try: yield slot; finally: <put>(slot)"""
-    if fn is None or len(fn.body) != 2:
+    """<slot = …one `_slots.get()` request…, possibly over several statements>; try: yield slot; finally: <put>(slot)"""
+    if fn is None or len(fn.body) < 2:
         return False
-    a, t = fn.body
-    if not (isinstance(a, ast.Assign) and ctx.unparse(a.targets[0]) == 'slot' and '_slots.get()' in ctx.unparse(a.value)):
+    pre, t = fn.body[:-1], fn.body[-1]
+    binds = [n for st in pre for n in ast.walk(st) if isinstance(n, ast.Assign) and any(ctx.unparse(x) == 'slot' for x in n.targets)]
+    gets = sum(ctx.unparse(st).count('_slots.get()') for st in pre)
+    puts = sum(ctx.unparse(st).count('put_nowait') for st in pre)
+    yields = [n for st in pre for n in ast.walk(st) if isinstance(n, (ast.Yield, ast.YieldFrom))]
+    if not (len(binds) == 1 and gets == 1 and puts == 0 and not yields):
         return False
     if not (isinstance(t, ast.Try) and not t.handlers and not t.orelse and len(t.body) == 1 and len(t.finalbody) == 1):
         return False
     return ctx.unparse(t.body[0]) == 'yield slot' and put_pred(ctx.unparse(t.finalbody[0]))
+
+
+_WAIT_NAMES = {'result', 'exception', 'get', 'put', 'wait', 'wait_for', 'acquire', 'join', 'as_completed', 'timeout', 'timeout_at'}
+_TIMEOUT_EXCS = {'TimeoutError', 'concurrent.futures.TimeoutError', 'futures.TimeoutError', 'asyncio.TimeoutError', 'queue.Full', 'queue.Empty',
+                 'Full', 'Empty'}
+
+
+def _timeout_arg(ctx, call):
+    """the finite time-out argument of a wait primitive (AST), or None (not a wait / no time-out / `timeout=None`)"""
+    f = call.func
+    name = f.attr if isinstance(f, ast.Attribute) else (f.id if isinstance(f, ast.Name) else None)
+    if name not in _WAIT_NAMES:
+        return None
+    base = ctx.unparse(f.value) if isinstance(f, ast.Attribute) else ''
+    t = {k.arg: k.value for k in call.keywords}.get('timeout')
+    a = call.args
+    if t is None and not any(isinstance(x, ast.Starred) for x in a):
+        lib = base in ('asyncio', 'concurrent.futures', 'futures')
+        if name in ('result', 'exception') and len(a) == 1:
+            t = a[0]
+        elif name == 'wait' and not lib and len(a) == 1:
+            t = a[0]
+        elif name == 'wait' and lib and len(a) >= 2:
+            t = a[1]
+        elif name in ('wait_for', 'as_completed') and len(a) >= 2:
+            t = a[1]
+        elif name in ('timeout', 'timeout_at') and base == 'asyncio' and len(a) == 1:
+            t = a[0]
+        elif name == 'get' and len(a) == 2 and isinstance(a[0], ast.Constant) and isinstance(a[0].value, bool):
+            t = a[1]
+        elif name == 'put' and len(a) == 3:
+            t = a[2]
+        elif name == 'acquire' and len(a) == 2:
+            t = a[1]
+    if t is None or (isinstance(t, ast.Constant) and t.value is None):
+        return None
+    return t
+
+
+def _timed_waits(ctx, tree):
+    """→ [(enclosing function names, call node, timeout node, retried?)] for every finite-time-out wait under `tree`"""
+    out = []
+
+    def retried(call, chain):
+        # nearest enclosing loop inside the same function
+        for i in range(len(chain) - 1, -1, -1):
+            node = chain[i]
+            if isinstance(node, (ast.FunctionDef, ast.AsyncFunctionDef, ast.Lambda)):
+                return False
+            if isinstance(node, ast.While):
+                if any(x is call for x in ast.walk(node.test)):
+                    return True             # `while not ev.wait(t): …`
+                # try … except <time-out>: <no raise / return / break>
+                for tr in chain[i + 1:]:
+                    if isinstance(tr, ast.Try) and any(x is call for st in tr.body for x in ast.walk(st)):
+                        hs = [h for h in tr.handlers if h.type is not None and (
+                            ctx.unparse(h.type) in _TIMEOUT_EXCS
+                            or (isinstance(h.type, ast.Tuple) and any(ctx.unparse(e) in _TIMEOUT_EXCS for e in h.type.elts)))]
+                        if hs and not any(isinstance(x, (ast.Return, ast.Raise, ast.Break)) for h in hs for st in h.body for x in ast.walk(st)):
+                            return True
+                return False
+            if isinstance(node, (ast.For, ast.AsyncFor)):
+                return False
+        return False
+
+    def completed(call, chain):
+        # `for f in …as_completed(…): f.result(t)` — the future is done, the call does not wait
+        f = call.func
+        if not (isinstance(f, ast.Attribute) and f.attr in ('result', 'exception') and isinstance(f.value, ast.Name)):
+            return False
+        return any(isinstance(n, ast.For) and isinstance(n.target, ast.Name) and n.target.id == f.value.id
+                   and isinstance(n.iter, ast.Call) and ctx.unparse(n.iter.func).endswith('as_completed') for n in chain)
+
+    def walk(node, chain, funcs):
+        for ch in ast.iter_child_nodes(node):
+            fs = funcs + [ch.name] if isinstance(ch, (ast.FunctionDef, ast.AsyncFunctionDef)) else funcs
+            if isinstance(ch, ast.Call):
+                t = _timeout_arg(ctx, ch)
+                if t is not None and completed(ch, chain + [node]):
+                    t = None
+                if t is not None:
+                    out.append((funcs, ch, t, retried(ch, chain + [node])))
+            walk(ch, chain + [node], fs)
+    walk(tree, [], [])
+    return out
+
+
+def _number(ctx, tree, funcs_nodes, t):
+    """value of a time-out expression: a literal, a module-level constant, or the default of a parameter of an enclosing function"""
+    if isinstance(t, ast.Constant) and isinstance(t.value, (int, float)) and not isinstance(t.value, bool):
+        return t.value
+    if isinstance(t, ast.Name):
+        for fn in reversed(funcs_nodes):
+            names = [a.arg for a in fn.args.args]
+            d = dict(zip(names[len(names) - len(fn.args.defaults):], fn.args.defaults)).get(t.id)
+            if d is not None:
+                return _number(ctx, tree, [], d)
+        for st in tree.body:
+            if isinstance(st, ast.Assign) and any(isinstance(x, ast.Name) and x.id == t.id for x in st.targets):
+                return _number(ctx, tree, [], st.value)
+    return None
+
+
+def _lean_str(s):
+    return '"' + ''.join(c if (32 <= ord(c) < 127 and c not in '"\\') else '?' for c in s) + '"'
 
 
 def _under_slot(ctx, fn, call_txt):
@@ -181,6 +297,25 @@ def section(ctx):
     emit(f'def slotReleaseInFinally : Bool := {"true" if fin else "false"}')
     if not fin:
         notes['sched.slot_cm'] = 'slot context managers: acquire / try-yield / finally-release shape not recognised'
+    # ---- finite waits: does anything give up after a while?
+    bounded, tmo_ms, unmodelled = False, 0, []
+    for funcs, call, t, retried in _timed_waits(ctx, tree):
+        if retried:
+            continue
+        where = '.'.join(funcs) or '<module>'
+        if funcs and funcs[-1] in ('_acquire_slot', '_acquire_slot_threadsafe'):
+            v = _number(ctx, tree, [x for x in (a1, a2) if x is not None and x.name == funcs[-1]], t)
+            if not bounded:
+                tmo_ms = int(round(v * 1000)) if v is not None and v >= 0 else 0
+            bounded = True
+            notes[f'sched.slot_wait.{funcs[-1]}'] = f'the slot request gives up after {un(t)} (= {v}) seconds: {un(call)[:80]}'
+        else:
+            unmodelled.append(f'{where}: {un(call)[:70]}')
+    emit(f'def slotWaitBounded : Bool := {"true" if bounded else "false"}')
+    emit(f'def slotWaitTimeoutMs : Nat := {tmo_ms}')
+    emit('def unmodelledTimedWaits : List String := [' + ', '.join(_lean_str(x) for x in unmodelled) + ']')
+    if unmodelled:
+        notes['sched.timed_waits'] = 'finite waits that are not retried and have no transition in the model: ' + '; '.join(unmodelled)[:300]
     under = True
     for nm, call in (('_exists', 'self.backend.exists'), ('_download', 'self.backend.download'), ('_upload_data', 'self.backend.upload'),
                      ('_delete', 'self.backend.delete')):
